@@ -2,7 +2,10 @@
 
 package piece
 
-import "github.com/jech/storrent/bitmap"
+import (
+	"github.com/jech/storrent/bitmap"
+	"github.com/jech/storrent/mono"
+)
 
 // VerifData returns a copy of a piece's buffer and the bitmap of the blocks
 // it holds, whatever the piece's state (verification harness only).
@@ -11,4 +14,18 @@ func (ps *Pieces) VerifData(index uint32) ([]byte, bitmap.Bitmap) {
 	defer ps.mu.RUnlock()
 	p := &ps.pieces[index]
 	return append([]byte(nil), p.data...), p.bitmap.Copy()
+}
+
+// VerifSetAge makes a piece look as if it had last been accessed the given
+// number of seconds ago.
+func (ps *Pieces) VerifSetAge(index uint32, seconds uint32) {
+	now := mono.Now()
+	ps.pieces[index].SetTime(now - mono.Time(seconds))
+}
+
+// VerifHolds reports whether a piece currently has a buffer.
+func (ps *Pieces) VerifHolds(index uint32) bool {
+	ps.mu.RLock()
+	defer ps.mu.RUnlock()
+	return ps.pieces[index].data != nil
 }
